@@ -711,7 +711,86 @@ theorem same_localSound (n : Nat) (b : BSpec Rat) (h : ∀ w, b.localized w none
 example (n : Nat) (choices : List Seq) (l : Loc) : C02.LocalSound n evB lzB iniB (.enforceChoice choices l) :=
   same_localSound n _ (fun _ => rfl)
 
+/-! ### the closed statement for problems made of built-in constraints
+
+The hypotheses of `C02.optimize_preserves_feasible` are met by the built-in model itself: the
+specifications of the model seen as solver objects (`bOps`) are pure and total, and the classes
+treated above are `LocalSound`.  (Object identity plays no role in `optimize()`; the `BEq` instance
+below only exists because the solver record asks for one.) -/
+
+instance instBEqBSpecRat : BEq (BSpec Rat) := ⟨fun _ _ => false⟩
+attribute [-instance] instBEqBSpecRat
+attribute [local instance] instBEqBSpecRat
+
+/-- the built-in model as the solver's specification objects -/
+def bOps : SpecOps (BSpec Rat) Rat where
+  evaluate b s _ := .ok (evB b s)
+  localize b l rh s _ := .ok (match b.localized l rh with
+    | .none => none
+    | .same => some (b, .same)
+    | .new b' => some (b', .fresh)
+    | .typeError => none)
+  initOn b s r _ := .ok (iniB b s r, .same)
+  enforced _ := false
+  priority _ := 0
+  best _ := none
+  boost _ := 1
+  passive _ := false
+  acceptsRighthand _ := true
+  heuristic _ := none
+
+theorem bOps_pureEval : Pure.PureEval bOps evB := fun _ _ _ => rfl
+
+theorem bOps_pureObj : C02.PureObj bOps lzB iniB where
+  loc c l s k := by
+    refine ⟨_, rfl, ?_⟩
+    simp only [lzB]
+    cases c.localized l none <;> rfl
+  init c s r k := ⟨.same, rfl⟩
+
+/-- the constraint classes whose localization soundness is a theorem of this file -/
+inductive Proven (n : Nat) : BSpec Rat → Prop where
+  | avoidChanges (target : Seq) (a b : Nat) (st : Int) (hst : st ≠ -1) (hab : a ≤ b) (hb : b ≤ n)
+      (hlen : target.length = b - a) : Proven n (.avoidChanges 0 target (.loc ⟨a, b, st⟩))
+  | enforceSequence (sq : Seq) (a b : Nat) (st : Int) (hst : st ≠ -1) (hab : a ≤ b) (hb : b ≤ n) :
+      Proven n (.enforceSequence sq ⟨a, b, st⟩)
+  | returnsSelf (b : BSpec Rat) (h : ∀ w, b.localized w none = .same) : Proven n b
+
+theorem proven_localSound (n : Nat) (b : BSpec Rat) (h : Proven n b) : C02.LocalSound n evB lzB iniB b := by
+  cases h with
+  | avoidChanges target a b st hst hab hb hlen => exact avoidChanges_localSound n target a b st hst hab hb hlen
+  | enforceSequence sq a b st hst hab hb => exact enforceSequence_localSound n sq a b st hst hab hb
+  | returnsSelf b h => exact same_localSound n b h
+
+/-- **C02, closed for the built-in model**: a problem whose (evaluated) constraints are AvoidChanges /
+    EnforceSequence regions on the forward strand and any specifications that localize to themselves
+    (EnforceChoice, global GC bounds, edit budgets, …), with *any* objectives, on a well-formed
+    mutation space: if all of them pass before `optimize()`, all of them pass after it — for every
+    setting and every random tape, whether `optimize()` returns or raises. -/
+theorem builtin_optimize_preserves_feasible (sett : Settings) (F : Frame (BSpec Rat)) (n : Nat)
+    (hfit : ∀ a b : Int, C15.ChoicesFit n (F.space.localized a b).multichoices)
+    (hcls : ∀ c ∈ F.constraints, Proven n c) (s : Seq) (st : St (BSpec Rat) Rat) (hn : s.length = n)
+    (hs : Pure.feasible bOps evB F s = true) :
+    Pure.feasible bOps evB F (Solver.optimize bOps sett F s st).2.1 = true := by
+  have instLS : Pure.LawfulScore Rat := {
+    lt_irrefl := fun a => by simp [Score.lt]
+    lt_trans := fun a b c h1 h2 => by
+      simp only [Score.lt, decide_eq_true_eq] at *; exact lt_trans h1 h2
+    le_iff_not_lt := fun a b => by
+      simp only [Score.le, Score.lt, decide_eq_true_eq, decide_eq_false_iff_not, not_lt]
+    lt_of_lt_of_not_lt := fun a b c h1 h2 => by
+      simp only [Score.lt, decide_eq_true_eq, decide_eq_false_iff_not, not_lt] at *; exact lt_of_lt_of_le h1 h2 }
+  exact C02.optimize_preserves_feasible bOps evB lzB iniB sett F n
+    { pureEval := bOps_pureEval
+      pureObj := bOps_pureObj
+      localFit := hfit
+      sound := fun c hc _ => proven_localSound n c (hcls c hc)
+      enforcedKept := fun _ _ _ _ _ _ _ => rfl } s st hn hs
+
 /-! ### non-vacuity -/
+example : Proven 10 (.avoidChanges 0 "TG".toList (.loc ⟨1, 3, 1⟩)) :=
+  .avoidChanges _ 1 3 1 (by decide) (by decide) (by decide) (by decide)
+
 example : PassesB (.avoidChanges 0 "TG".toList (.loc ⟨1, 3, 1⟩)) "ATGC".toList :=
   (avoidChanges_passes_iff "TG".toList 1 3 1 (by decide) "ATGC".toList (by decide) (by decide) (by decide)).2 (by decide)
 
